@@ -347,6 +347,12 @@ def main(ctx):
                     run(ctx, 'pow4', [(r, c, min(ba, 2))], lambda a: a ** 4, lambda a: mm(mm(mm(a, a), a), a))
             run(ctx, 'hstack', [(r, c, ba), (r, c, bb_)], lambda a, b: M.hstack(a, b), lambda a, b: [ra + rb for ra, rb in zip(a, b)])
             run(ctx, 'vstack', [(r, c, ba), (r, c, bb_)], lambda a, b: M.vstack(a, b), lambda a, b: a + b)
+            # the same Matrix object stacked more than once, three operands
+            run(ctx, 'hstack-repeated-operand', [(r, c, ba), (r, 1, bb_)], lambda a, b: M.hstack(a, b, a),
+                lambda a, b: [ra + rb + ra for ra, rb in zip(a, b)])
+            run(ctx, 'vstack-repeated-operand', [(r, c, ba), (1, c, bb_)], lambda a, b: M.vstack(a, b, a), lambda a, b: a + b + a)
+            run(ctx, 'concatenate-repeated-operand', [(r, c, ba)], lambda a: M.concatenate((a, a), axis=0),
+                lambda a: [ra + ra for ra in a])
             run(ctx, 'concatenate0', [(r, c, ba), (r, c, bb_)], lambda a, b: M.concatenate([a, b], axis=0),
                 lambda a, b: [ra + rb for ra, rb in zip(a, b)])
             run(ctx, 'concatenate1', [(r, c, ba), (r, c, bb_)], lambda a, b: M.concatenate([a, b], axis=1), lambda a, b: a + b)
